@@ -38,6 +38,40 @@ class XEv(conc.Ev):
             setattr(self, n, kw.get(n, getattr(e, n)))
 
 
+def coq_conform_big(name, traces, seg=1200, per_file=45000):
+    """like conc.coq_conform, for long traces: every trace is written as a concatenation of short list literals (one
+    huge literal overflows coqc's stack); returns [(rejected_index, ended_idle)] in order"""
+    out, batch, nev = [], [], 0
+
+    def flush():
+        nonlocal batch, nev
+        if not batch:
+            return
+        body = []
+        for k, (sv, tr) in enumerate(batch):
+            parts = []
+            for j in range(0, max(len(tr), 1), seg):
+                body.append("Definition t%d_%d : list event := [%s]." % (k, j // seg, "; ".join(e.coq() for e in tr[j:j + seg])))
+                parts.append("t%d_%d" % (k, j // seg))
+            body.append("Definition t%d : list event := %s." % (k, " ++ ".join(parts)))
+        body.append("Eval vm_compute in [%s]." % "; ".join(
+            "(let '(i, d) := conform %d t%d in [i; d])" % (sv, k) for k, (sv, _) in enumerate(batch)))
+        ok, vals, raw = driver.coq_eval("%s_%d" % (name, len(out)), IMPORTS, "\n".join(body) + "\n", timeout=900)
+        if not ok or len(vals) != 1:
+            raise RuntimeError("coq conformance evaluation failed: " + raw[-2000:])
+        xs = driver.ints(vals[0])
+        out.extend((xs[2 * i], xs[2 * i + 1]) for i in range(len(batch)))
+        batch, nev = [], 0
+
+    for sv, tr in traces:
+        if batch and nev + len(tr) > per_file:
+            flush()
+        batch.append((sv, tr))
+        nev += len(tr)
+    flush()
+    return out
+
+
 def build():
     exe, msg = common.build_harness("c05_sync", ["c05_sync.c"], whitebox=True, extra=["-I" + common.VERIF + "/harness"])
     if exe is None:
@@ -175,7 +209,7 @@ def correspond(ctx):
         fails += f
         nitems += st.get("items", 0)
         dist["retarget_scenario_items"] = dist.get("retarget_scenario_items", 0) + st.get("items", 0)
-    res = conc.coq_conform("c05s_conf", IMPORTS, "conform", [(sv, t) for (sv, t, _, _) in alltr], chunk=12)
+    res = coq_conform_big("c05s_conf", [(sv, t) for (sv, t, _, _) in alltr])
     nev = 0
     for (i, idle), (sv, t, thr, label) in zip(res, alltr):
         nev += len(t)
